@@ -7,7 +7,7 @@ From Coq Require Import List Arith Bool ZArith Ring Sorted QArith Qcanon.
 From Verif.lib Require Import Slice Bsp.
 From Verif.C02 Require Proofs Proofs_ref.
 From Verif.C14 Require Model Spec.
-From Verif.C10 Require Import Model Model_ic Proofs Proofs_ic Proofs_mp.
+From Verif.C10 Require Import Model Model_ic Model_bc Proofs Proofs_ic Proofs_ic2 Proofs_ic3 Proofs_mp Proofs_bc.
 Import ListNotations.
 Local Open Scope nat_scope.
 
@@ -310,3 +310,158 @@ Theorem dirichlet_bcs_all_each_dof_once : forall shape nc, Forall (fun n => 0 < 
           else exists j, j < nc /\ r = ravel shape mi + j * prod_list shape)).
 Proof. exact dirichlet_bcs_all_spec. Qed.
 Print Assumptions dirichlet_bcs_all_each_dof_once.
+
+(* ---- compute_dirichlet_bcs for ANY list of conditions (not only the 'all' shorthand) ----
+   every condition names a valid face of a non-empty axis (cond_ok): the result lists exactly the
+   dofs (of every component) on the requested faces, each once, strictly increasing -- whatever
+   the order of the list, with repeated or overlapping faces, scalar and vector data mixed. *)
+Theorem dirichlet_bcs_any_list_each_dof_once : forall shape conds, Forall (cond_ok shape) conds ->
+  exists l, dirichlet_bcs_indices shape conds = Some l /\ StronglySorted lt l /\ NoDup l /\
+    (forall r, In r l <->
+       exists b nc ax side mi, In (b, nc) conds /\ parse_bdspec b (length shape) = Some (ax, side) /\
+         on_face shape ax side mi /\
+         (if Nat.eqb nc 0 then r = ravel shape mi
+          else exists j, j < nc /\ r = ravel shape mi + j * prod_list shape)).
+Proof. exact dirichlet_bcs_list_spec. Qed.
+Print Assumptions dirichlet_bcs_any_list_each_dof_once.
+
+(* an invalid boundary specification anywhere in the list: the call fails (ValueError), no partial result *)
+Theorem dirichlet_bcs_invalid_spec_fails : forall shape conds b nc,
+  In (b, nc) conds -> parse_bdspec b (length shape) = None -> dirichlet_bcs_indices shape conds = None.
+Proof. exact dirichlet_bcs_list_invalid. Qed.
+Print Assumptions dirichlet_bcs_invalid_spec_fails.
+
+(* ---- compute_dirichlet_bc WITH its values (Model_bc.v) ----
+   coef k [j] is the interpolation coefficient of the k-th dof of the face [and component j], None = nan.
+   Scalar data: the face dofs with a non-nan coefficient, each once, each paired with ITS coefficient. *)
+Theorem dirichlet_bc_scalar_values : forall (X : Type) shape b (coef : nat -> option X) ax side,
+  parse_bdspec b (length shape) = Some (ax, side) -> 0 < nth ax shape 0 ->
+  exists bd idx vals, boundary_slice shape b [] = Some bd /\
+    dirichlet_bc_scalar X shape b coef = Some (idx, vals) /\
+    length idx = length vals /\ NoDup idx /\
+    (forall r v, In (r, v) (combine idx vals) <-> exists k, k < length bd /\ r = nth k bd 0 /\ coef k = Some v).
+Proof. exact dirichlet_bc_scalar_spec. Qed.
+Print Assumptions dirichlet_bc_scalar_values.
+
+(* Vector data, blocked numbering WITH values: component j of the k-th face dof sits at index
+   bd[k] + j*NN (NN = number of dofs of the patch) and carries coefficient coef k j -- no mixing of
+   components or dofs; indices strictly increasing; nan coefficients dropped. *)
+Theorem dirichlet_bc_vector_blocked_values : forall (X : Type) shape b nc (coef : nat -> nat -> option X) ax side,
+  parse_bdspec b (length shape) = Some (ax, side) -> 0 < nth ax shape 0 ->
+  exists bd idx vals, boundary_slice shape b [] = Some bd /\
+    dirichlet_bc_vector X shape b nc coef = Some (idx, vals) /\
+    length idx = length vals /\ StronglySorted lt idx /\
+    (forall r v, In (r, v) (combine idx vals) <->
+       exists k j, k < length bd /\ j < nc /\ r = nth k bd 0 + j * prod_list shape /\ coef k j = Some v).
+Proof. exact dirichlet_bc_vector_spec. Qed.
+Print Assumptions dirichlet_bc_vector_blocked_values.
+
+(* combine_bcs on duplicate-free indices only sorts: the set of (index, value) pairs is unchanged *)
+Theorem combine_bcs_nodup_is_sort : forall (X : Type) (d : X) indices (values : list X),
+  NoDup indices -> length values = length indices ->
+  let res := combine_flat X d indices values in
+  forall r v, In (r, v) (combine (fst res) (snd res)) <-> In (r, v) (combine indices values).
+Proof. exact combine_flat_nodup. Qed.
+Print Assumptions combine_bcs_nodup_is_sort.
+
+(* _drop_nans keeps exactly the pairs whose value is not nan (order and sortedness preserved) *)
+Theorem drop_nans_keeps_non_nan : forall (X : Type) idx (vals : list (option X)) r v,
+  In (r, v) (combine (fst (drop_nans X idx vals)) (snd (drop_nans X idx vals))) <-> In (r, Some v) (combine idx vals).
+Proof. exact drop_nans_pairs. Qed.
+Print Assumptions drop_nans_keeps_non_nan.
+
+Theorem drop_nans_preserves_order : forall (X : Type) idx (vals : list (option X)),
+  StronglySorted lt idx -> StronglySorted lt (fst (drop_nans X idx vals)).
+Proof. exact drop_nans_sorted. Qed.
+Print Assumptions drop_nans_preserves_order.
+
+(* ---- compute_initial_condition_01: from the time direction to the space-time spline ----
+   c j s = coefficient of the space-time spline with time index j and spatial (face) index s; G0 s, G1 s the
+   interpolation coefficients of g0, g1 on the face; B s ARBITRARY weights (the values of the spatial basis
+   functions at any point x of the face).  If for every spatial dof the two boundary coefficients are the
+   computed pair, then  u(t0, x) = sum_s G0_s B_s(x)  and  du/dt(t0, x) = sum_s G1_s B_s(x):  on the initial
+   face the space-time spline IS the spatial interpolant of g0 and its time derivative that of g1 --
+   whatever the remaining coefficients of the space-time spline are. *)
+Theorem initial_condition_spacetime : forall kv p, open_kv kv p = true -> 1 <= p ->
+  forall ns (G0 G1 B : nat -> Qc) (c : nat -> nat -> Qc),
+  (forall s, s < ns -> c 0 s = fst (ic_coeffs kv p 0 (G0 s) (G1 s)) /\ c 1 s = snd (ic_coeffs kv p 0 (G0 s) (G1 s))) ->
+  (C02.Proofs_ref.sumf (fun j => C02.Proofs_ref.sumf (fun s => c j s * (Nref kv p j (kn kv 0) * B s)) 0 ns) 0 (numdofs kv p)
+    = C02.Proofs_ref.sumf (fun s => G0 s * B s) 0 ns /\
+   C02.Proofs_ref.sumf (fun j => C02.Proofs_ref.sumf (fun s => c j s * (dNref kv 1 p j (kn kv 0) * B s)) 0 ns) 0 (numdofs kv p)
+    = C02.Proofs_ref.sumf (fun s => G1 s * B s) 0 ns)%Qc.
+Proof. exact ic_spacetime_left. Qed.
+Print Assumptions initial_condition_spacetime.
+
+Theorem initial_condition_spacetime_right : forall kv p, open_kv kv p = true -> 1 <= p ->
+  forall ns (G0 G1 B : nat -> Qc) (c : nat -> nat -> Qc),
+  (forall s, s < ns -> c (numdofs kv p - 2) s = fst (ic_coeffs kv p 1 (G0 s) (G1 s)) /\
+                       c (numdofs kv p - 1) s = snd (ic_coeffs kv p 1 (G0 s) (G1 s))) ->
+  (C02.Proofs_ref.sumf (fun j => C02.Proofs_ref.sumf (fun s => c j s * (Nref kv p j (kn kv (length kv - 1)) * B s)) 0 ns) 0 (numdofs kv p)
+    = C02.Proofs_ref.sumf (fun s => G0 s * B s) 0 ns /\
+   C02.Proofs_ref.sumf (fun j => C02.Proofs_ref.sumf (fun s => c j s * (dNref kv 1 p j (kn kv (length kv - 1)) * B s)) 0 ns) 0 (numdofs kv p)
+    = C02.Proofs_ref.sumf (fun s => G1 s * B s) 0 ns)%Qc.
+Proof. exact ic_spacetime_right. Qed.
+Print Assumptions initial_condition_spacetime_right.
+
+(* ---- compute_initial_condition_01 WITH its values: which dof every coefficient lands on ----
+   (Model_bc.initial_condition; coef k s = coll_coeffs[k, s]).  For every shape, every accepted bdspec whose
+   axis has at least two dofs: the index array is the one of Model.initial_indices, duplicate-free, of length
+   2*nface; its s-th entry is the dof with time index f (= 0 resp. n-2) and the s-th spatial multi-index of the
+   face and carries coef 0 s; entry nface+s is the dof with the SAME spatial multi-index and time index f+1
+   and carries coef 1 s.  (put ax i mi = mi with coordinate ax replaced by i.) *)
+Theorem initial_condition_alignment : forall (X : Type) (d : X) shape b (coef : nat -> nat -> X) ax side,
+  parse_bdspec b (length shape) = Some (ax, side) -> 2 <= nth ax shape 0 ->
+  let f := ic_first_idx (nth ax shape 0) side in
+  let face := slice_multi ax f shape [] in
+  exists idx vals, initial_condition X shape b coef = Some (idx, vals) /\
+    initial_indices shape b = Some idx /\
+    length idx = 2 * length face /\ length vals = length idx /\ NoDup idx /\
+    (forall s, s < length face ->
+       let mi := nth s face [] in
+       valid_mi shape mi /\ nth ax mi 0 = f /\
+       nth s idx 0 = ravel shape mi /\ nth s vals d = coef 0 s /\
+       nth (length face + s) idx 0 = ravel shape (put ax (f + 1) mi) /\ nth (length face + s) vals d = coef 1 s).
+Proof. exact initial_condition_spec. Qed.
+Print Assumptions initial_condition_alignment.
+
+(* slices of the same axis at different positions agree entry by entry up to that coordinate (any flips) *)
+Theorem slice_positions_aligned : forall ax i i0 shape fl,
+  slice_indices ax i shape fl = map (fun mi => ravel shape (put ax i mi)) (slice_multi ax i0 shape fl).
+Proof. exact slice_indices_put. Qed.
+Print Assumptions slice_positions_aligned.
+
+(* =========================================================================================
+   NOT PROVED -- clause by clause account of property C10 (what has no theorem about the model):
+
+   1. "solving the restricted system and completing the solution ... prescribed value ... every
+      non-eliminated equation ... restrict/extend/restrict-matrix/complete consistent": THEOREMS
+      (complete_prescribed[_scalar], complete_solves, restrict_*, selection_split_identity) over every
+      commutative ring.  Without theorem: binary64 rounding of A.dot and of the caller's solve (the tie
+      uses integer data, for which the implementation is exact; the solve is done exactly by the harness).
+   2. "every dof on the requested faces exactly once": THEOREMS for one face (boundary_dofs_face,
+      dirichlet_indices_face, dirichlet_bc_scalar_values), the 'all' shorthand and any list of conditions
+      (dirichlet_bcs_all_each_dof_once, dirichlet_bcs_any_list_each_dof_once).
+   3. "blocked numbering for vector fields": THEOREMS (blocked_numbering, dirichlet_bc_vector_blocked_values:
+      indices AND the pairing of every (dof, component) with its coefficient).  Without theorem: that
+      dircoeffs[..., j].ravel() enumerates the face in the order of bdindices (C order of a numpy array;
+      the model takes coef k j with k the position in bdindices) -- decided by the interpolation oracle.
+   4. "glued numbering for multipatch": THEOREMS on C14's model (mp_loop_any_order, mp_bcs_glued,
+      mp_bcs_one_entry_per_class).
+   5. "values interpolating the boundary data on the physical boundary face": NO THEOREM.  interpolate()
+      (tensor-product collocation solve, C17), geo.boundary() and the evaluation of g at the mapped Greville
+      points are not modelled here; evaluated on the implementation on every face within 1e-11 relative
+      against an own exact Cox-de Boor evaluation (harness/props/c10.py: check_local_bc).
+   6. "combining several conditions keeps one value per dof": THEOREMS (combine_one_value_per_dof,
+      combine_bcs_nodup_is_sort, drop_nans_keeps_non_nan, drop_nans_preserves_order).
+   7. "space-time initial conditions reproduce the prescribed value and time derivative on the initial
+      face": THEOREMS for the time direction, every open knot vector, both ends
+      (initial_condition_01_reproduces[_right], initial_condition_bdcolloc_*, initial_condition_coeffs).
+      The placement of coefficient (k, s) on the dof with time index firstidx+k and the s-th spatial multi-index
+      is a THEOREM (initial_condition_alignment).  Without theorem: (a) that coll_coeffs.ravel() (numpy C order of a
+      (2, nface) array) is row 0 followed by row 1 and that the interpolation coefficients are raveled in the order of
+      the face slice (both decided by the reproduction oracle on the implementation);
+      (b) the spatial interpolation of g0, g1 that produces G0, G1 (interpolate, C17) -- the passage from the time
+      direction to the space-time spline IS a theorem (initial_condition_spacetime[_right]); (c) degree p = 0 in time and
+      non-open knot vectors are outside the theorem (the code needs two boundary basis functions);
+      (d) binary64 rounding of the 2x2 solve (tied within IC_SOLVE_TOL).
+   ========================================================================================= *)
